@@ -79,7 +79,9 @@ def jobs_c02(tier, seed):
         J("c02::run_from_new_3", features=f, timeout_s=900, bound="every 3-byte stream from Parser::new()"),
     ]
     for n, b in STEP_CASES:
-        jobs.append(J(f"c02::{n}", features=f, timeout_s=1200, bound="one step from an arbitrary valid parser state: " + b))
+        big = n.endswith(("_31", "_32", "_15", "_16", "_16_extra"))
+        jobs.append(J(f"c02::{n}", features=f, timeout_s=3600 if big else 1200, mem_gb=20 if big else 12, all_covers=False, min_covers=1,
+                      bound="one step from an arbitrary valid parser state: " + b))
     if tier == "thorough":
         jobs += [
             J("c02::run_from_new_4", features=f, timeout_s=3600, mem_gb=20, bound="every 4-byte stream from Parser::new()"),
@@ -132,6 +134,42 @@ def jobs_c01(tier, seed):
             jobs.append(J(f"c01::stream_{n}", features=f, timeout_s=to, mem_gb=mem, optional=n >= 4, bound=f"StripStream::write_all over &mut dyn Write: every byte string of length {n}"))
             jobs.append(J(f"c01::str_oneshot_{n}", features=f, timeout_s=to, mem_gb=mem, bound=f"strip_str: every UTF-8 string of {n} bytes"))
             jobs.append(J(f"c01::str_incremental_{n}", features=f, timeout_s=to, mem_gb=mem, bound=f"StripStr::strip_next: every UTF-8 string of {n} bytes"))
+    return jobs
+
+
+def jobs_c04(tier, seed):
+    """Kani's default checks (bounds, arithmetic overflow, unwrap/expect/unreachable panics,
+    invalid enum values, pointer validity, debug assertions) ARE the property; the functional
+    harnesses of the other properties are re-run with every default check switched on."""
+    jobs = []
+
+    def add(name, feats, bound, crate="core", stub=False, to=1800, mem=16, opt=False):
+        j = J(name, crate=crate, features=feats, stubbing=stub, timeout_s=to, mem_gb=mem, optional=opt, bound=bound,
+              all_covers=False, min_covers=1, replay="none" if stub else "playback")
+        j.checks = "all"
+        jobs.append(j)
+
+    add("c02::transition_table", ["c02"], "parser: transmute-based unpack of every table entry (invalid enum values), all states x all bytes")
+    add("c02::run_from_new_2", ["c02"], "parser: every 2-byte stream from new(), all default checks")
+    for st in ["step_csi_param_2", "step_osc_2", "step_dcs_passthrough", "step_ground", "step_escape_intermediate"]:
+        add(f"c02::{st}", ["c02"], f"parser: one step from an arbitrary valid state ({st}), any byte: every unsafe block, MaybeUninit OSC slices, index arithmetic")
+    add("c01::bytes_oneshot_2", ["c01"], "strip_bytes: every 2-byte string, all default checks")
+    add("c01::bytes_oneshot_3", ["c01"], "strip_bytes: every 3-byte string", to=2400)
+    add("c01::str_oneshot_2", ["c01"], "strip_str: every 2-byte UTF-8 string: returned pieces valid UTF-8 inside the input (from_utf8_unchecked under debug assertions)")
+    add("c01::str_oneshot_3", ["c01"], "strip_str: every 3-byte UTF-8 string", to=2400)
+    add("c05::slot_fg", ["c05"], "DisplayBuffer (19-byte capacity) for every colour, all default checks")
+    add("c05::slot_underline", ["c05"], "DisplayBuffer via the underline slot (longest code), every colour")
+    for sh in ["csi_k1_s0", "csi_k3_s0", "csi_k5_s0", "csi_k5_s15"]:
+        add(f"c07::harness::{sh}", ["c07"], f"styled-run extractor csi_dispatch shape {sh}: expect(\"within 4-bit range\"), `as u8` truncations, every u16 value")
+    add("c10::palette_scan_lowest_minimum", ["c10"], "Palette::find_match best_index panic path, any palette / table", stub=True)
+    add("c10::direct_conversions", ["c10"], "lossy conversions: table indexing for every index and palette")
+    add("c12::ls_codes_2", ["c12"], "LS_COLORS code interpreter on every 2-code list", stub=True)
+    add("c12::ls_codes_3", ["c12"], "LS_COLORS code interpreter on every 3-code list (38/48/58 look-ahead)", stub=True)
+    if tier == "thorough":
+        add("c01::bytes_oneshot_4", ["c01"], "strip_bytes: every 4-byte string", to=2 * 3600, mem=24, opt=True)
+        add("c02::run_from_new_3", ["c02"], "parser: every 3-byte stream from new()", to=3600, mem=24, opt=True)
+        add("c02::step_csi_param_32", ["c02"], "parser step at the 32-parameter limit", to=3600, mem=24, opt=True)
+        add("c02::step_osc_16", ["c02"], "parser step at the 16-field OSC limit", to=3600, mem=24, opt=True)
     return jobs
 
 
@@ -253,7 +291,7 @@ def jobs_c20(tier, seed):
     for cfg, feats in C20_CONFIGS:
         f = ["c20", "seven_bit"] + feats
         for h in common:
-            j = J(h, crate="parse", features=f, timeout_s=1800 if "new_4" not in h else 3600, mem_gb=16,
+            j = J(h, crate="parse", features=f, timeout_s=1800 if "new_4" not in h else 3600, mem_gb=16, all_covers=False, min_covers=1,
                   bound=f"[{cfg}] 7-bit input, same reference model as every other configuration: {h}")
             j.label = f"{cfg}:{h}"
             jobs.append(j)
@@ -357,12 +395,15 @@ def post_c10(prop, tier, seed, out):
 
 def jobs_c12(tier, seed):
     f = ["c12"]
-    ks = [1, 2, 3] if tier == "quick" else [1, 2, 3, 4, 5, 6]
+    ks = [1, 2, 3, 4] if tier == "quick" else [1, 2, 3, 4, 5, 6]
     jobs = [J("c12::ls_no_style", features=f, timeout_s=600, bound='"" / "0" / "00" (concrete)', min_covers=1)]
     for k in ks:
-        to = {1: 600, 2: 900, 3: 1200, 4: 3600, 5: 2 * 3600, 6: 3 * 3600}[k]
-        jobs.append(J(f"c12::ls_codes_{k}", features=f, stubbing=True, timeout_s=to, mem_gb=16 if k < 5 else 24, optional=k >= 5, replay="none",
-                      bound=f"every list of {k} codes (256^{k} lists), any one field failing to parse"))
+        to = {1: 600, 2: 900, 3: 1200, 4: 2400, 5: 2 * 3600, 6: 3 * 3600}[k]
+        jobs.append(J(f"c12::ls_codes_{k}", features=f, stubbing=True, timeout_s=to, mem_gb=16 if k < 5 else 24, optional=k >= 6, replay="none",
+                      bound=f"every list of {k} codes (256^{k} lists), every field a number"))
+    for k in ([1, 2] if tier == "quick" else [1, 2, 3]):
+        jobs.append(J(f"c12::ls_reject_{k}", features=f, stubbing=True, timeout_s=3600, mem_gb=24, optional=k >= 3, replay="none",
+                      bound=f"every list of {k} fields with any one field failing to parse -> rejected"))
     return jobs
 
 
@@ -480,7 +521,7 @@ REGISTRY = {
         "custom_replay": native.replay_c12,
         "level": "model_checking",
         "functions": ["anstyle_ls::parse (split, Option-collect into VecDeque, queue-driven code interpreter with 38/48/58 look-ahead)", "std VecDeque / str::split as compiled by Kani"],
-        "bounds": {"quick": "every list of <=3 codes, each code any value 0..=255; any single field rejected by number parsing", "thorough": "lists of <=6 codes (5 and 6 optional)"},
+        "bounds": {"quick": "every list of <=4 codes, each code any value 0..=255; lists of <=2 fields with any single field rejected by number parsing", "thorough": "lists of <=6 codes (6 optional), rejection with <=3 fields"},
         "outside": "lists longer than the bound; the decimal string layer itself (signs, spaces, leading zeros, non-ASCII, >255): std's u8::from_str is stubbed; 21 and 38/48/58 with missing operands (the property does not fix them)",
         "assumptions": ["STUB: <u8 as core::str::FromStr>::from_str returns the k-th symbolic code or std's ParseIntError; std's str::split(';') and u8::from_str are assumed correct"],
     },
@@ -526,6 +567,14 @@ REGISTRY = {
         },
         "outside": "longer inputs; the styled-run extractor's chunking is covered under C07's run harness",
         "assumptions": ["the chunked result is compared with the one-shot result of the same build (and C01 ties the one-shot result to the model)"],
+    },
+    "C04": {
+        "jobs": jobs_c04,
+        "level": "model_checking",
+        "functions": ["anstyle_parse::Parser::advance (all unsafe blocks: unpack transmute, MaybeUninit OSC slices)", "anstream::adapter::{strip_bytes, strip_str} incl. from_utf8_unchecked with debug assertions", "anstyle::color::DisplayBuffer", "anstream::adapter::wincon::WinconCapture::csi_dispatch", "anstyle_lossy::palette::Palette::find_match, xterm_to_rgb", "anstyle_ls::parse (code interpreter)"],
+        "bounds": {"quick": "as the underlying harnesses (parser: one step from any valid state + 2-byte runs; strip: <=3 bytes; colours: all; csi shapes <=5 values; ls lists <=3 codes) with ALL of Kani's default checks on", "thorough": "plus 4-byte strip inputs, 3-byte parser runs, the 32-parameter and 16-field limits"},
+        "outside": "anstyle_git::parse (byte-offset hex slicing), the SVG and roff converters and the string layer of anstyle_ls::parse: std string code CBMC does not get through (see C11/C14/C15); release-profile behaviour is addressed only as far as the same source is checked with debug-assertion semantics",
+        "assumptions": ["Kani's default checks model Rust's panics, arithmetic overflow (as in a debug build), out-of-bounds and invalid-value UB", "inputs of the recorded C01 finding class are excluded from the strip harnesses (that finding is about output content, not memory safety)"],
     },
     "C05": {
         "jobs": jobs_c05,
